@@ -116,7 +116,7 @@ PROPS = {
         level_text=LT, level_note=LN, assumptions=[],
     ),
     "C11": dict(
-        imports="Cache.Cache Cache.CacheConc", check="C10_check", ctype="C10_case",
+        imports="Cache.Cache Cache.CacheConc Cache.CopyBuf", check="C10_check", ctype="C10_case",
         show="let '(src, retained, can_remove, ops, _, _) := c in cruns src (fun n => mem_str n retained) 512 can_remove cinit ops", n=dict(quick=400, thorough=4000), chunk=100,
         rule="for files of 0..5000 bytes at depth 1..3 and both cache store kinds: a fault at every source read index and at every cache-store call (mkdir, create, each write with a partial write, close) of the fill, "
              "then three fault-free re-opens; plus 2..4 concurrent first opens with the copy paused at chunk boundaries (simultaneous copies counted; the store calls the real cache made are replayed through the interleaving model) and a failing fill while a second opener waits; distinct = distinct (size, store, fault) cell",
@@ -191,8 +191,8 @@ LEVELS = {
     "C10": ("Proved over the cache model: the cache store holds only complete copies, Open serves the source's bytes, a successful open settles the entry, settled entries are never re-read and stay settled.  Proved over the model of the directory handle (cache/dir.go): while the source lists the directory the handle is the same pager as the key-value handle (C16), a source that cannot list makes the call fail and leaves the handle where it was, and over any call sequence with failures at any calls the delivered pages are exactly the listing up to the handle's position. "
             "Checked every run: access sequences cache vs source (bytes, stat, listings, re-read counts); call sequences on directory handles with an intermittently failing source; model = implementation.",
             "Real parallelism of the path lock is exercised by C11's scheduler, not proved."),
-    "C11": ("Proved over the fill state machine: a partial copy is never served, an interrupted fill reports an error, a failed fill leaves nothing servable -- over every sequence of faults, a source that cannot be opened during a later call included.  Proved over the interleaving model of concurrent openers of one name (any number of openers, every schedule, a failure possible at every step of every fill): at most one copy is in progress, every open that succeeds is complete, no partial copy is ever left unmarked, a settled copy stays, some opener can always move. "
-            "Checked every run: failures injected at every source/store call, the same followed by a re-open with the source down (model = implementation); 2..4 concurrent first opens with the copy paused at chunk boundaries and a failing fill while a second opener waits (Remove slow / Remove failing): simultaneous copies counted, and the store calls the real cache made are replayed through the interleaving model (model accepts = implementation follows the protocol).",
+    "C11": ("Proved over the fill state machine: a partial copy is never served, an interrupted fill reports an error, a failed fill leaves nothing servable -- over every sequence of faults, a source that cannot be opened during a later call included.  Proved over the interleaving model of concurrent openers of one name (any number of openers, every schedule, a failure possible at every step of every fill): at most one copy is in progress, every open that succeeds is complete, no partial copy is ever left unmarked, a settled copy stays, some opener can always move.  Proved over the model of fills of different names whose read-a-chunk / write-the-buffer steps interleave in any order (Cache/CopyBuf.v): every file is at every moment a prefix of its own source and a finished fill has left exactly its source. "
+            "Checked every run: failures injected at every source/store call, the same followed by a re-open with the source down (model = implementation); 2..4 concurrent first opens with the copy paused at chunk boundaries and a failing fill while a second opener waits (Remove slow / Remove failing): simultaneous copies counted, and the store calls the real cache made are replayed through the interleaving model (model accepts = implementation follows the protocol); the fill of one name held inside a store write while another name is opened and read, every open and re-open compared with the source and the store's Writes replayed through the model of interleaved fills.",
             "The path lock itself is Go's sync primitives (trusted)."),
     "C12": ("Proved: for every well-formed archive (distinct resolved names, no file above another entry) the unpacking algorithm builds exactly the logical tree -- each entry, each ancestor as a 0700 directory, nothing else -- in every entry order; names normalise to the root, a real-name path, or an escaping path; an entry whose parent escapes stops unpacking and creates nothing. "
             "Checked every run: both models = implementation on generated archives; unpacked tree vs logical tree on four destinations incl. os.FS, sizes across the 150 KiB threshold.",
